@@ -28,7 +28,7 @@ HOM = [(phi, x) for phi in (0.0, 0.4, PI / 2) for x in (0.0, 0.3, -0.5)]
 HET = [0.0 + 0.0j, 0.3 - 0.5j]
 
 
-def case_run(cat, ent, meas, mode, res):
+def case_run(cat, ent, meas, mode, res, prop="C06"):
     a, phi, p = cat
     case = {"bosonic_cat": True, "cat": list(cat), "ent": [ent[0], list(ent[1])], "meas": [meas[0]] + [float(np.real(x)) if not isinstance(x, complex) else [x.real, x.imag] for x in meas[1:]], "mode": mode}
     fs = fr.FState(2, C)
@@ -61,7 +61,7 @@ def case_run(cat, ent, meas, mode, res):
                 mop | q[mode]
             st = sf.Engine("bosonic").run(prog).state
     except Exception as e:  # noqa: BLE001
-        res.violation(f"C06|{meas[0]}-select|raises|bosonic|cat", f"Catstate{cat} ; {ent[0]}{list(ent[1])} ; {mop} on mode {mode} raised {e!r}", case)
+        res.violation(f"{prop}|{meas[0]}-select|raises|bosonic|cat", f"Catstate{cat} ; {ent[0]}{list(ent[1])} ; {mop} on mode {mode} raised {e!r}", case)
         return True
     R = c16b.reference(fs, 2)
     Q = c16b.query(st, 2)
@@ -69,7 +69,7 @@ def case_run(cat, ent, meas, mode, res):
     for k in [k for k in R if k[0] == "fock_prob"]:
         del R[k]
     desc = f"the bosonic post-state of Catstate{cat} ; {ent[0]}{list(ent[1])} ; {mop} on mode {mode}"
-    c16b.compare(res, Q, R, "C06", f"{meas[0]}-select|bosonic|cat", desc, case, tol, 0.0)
+    c16b.compare(res, Q, R, prop, f"{meas[0]}-select|bosonic|cat", desc, case, tol, 0.0)
     return True
 
 
@@ -85,20 +85,20 @@ def tasks(quick):
     return [("bcat", "bosonic", 2, items[i : i + 6]) for i in range(0, len(items), 6)]
 
 
-def work(items):
+def work(items, prop="C06"):
     res = Res()
     for it in items:
         n0 = res.n
         res.n += 1
-        if case_run(*it, res):
+        if case_run(*it, res, prop):
             res.nt += res.n - n0
         res.sample({"bosonic_cat": True, "cat": list(it[0]), "entangler": it[1][0], "measurement": it[2][0], "mode": it[3]}, cap=1)
     return res
 
 
-def replay(case):
+def replay(case, prop="C06"):
     res = Res()
     m = case["meas"]
     meas = ("hom", m[1], m[2]) if m[0] == "hom" else ("het", complex(*m[1]))
-    case_run(tuple(case["cat"]), (case["ent"][0], tuple(case["ent"][1])), meas, case["mode"], res)
+    case_run(tuple(case["cat"]), (case["ent"][0], tuple(case["ent"][1])), meas, case["mode"], res, prop)
     return [(s, w) for s, w, c in res.viol if c.get("key") == case.get("key")]
